@@ -238,4 +238,87 @@ theorem subset_radial_refines (norm : List K → K) (ids pids types : List Int) 
   simp only [nf_subset_radial_distance, nf_subset_radial_distance.body, Py.bind, hr, Py.finish, Option.map]
   rw [hax, select_map]
 
+/-! ### `Path.length` on an arbitrary row list, `BranchFeatures.get_length` -/
+
+/-- the consecutive pairs of a row list -/
+def cpairs (idx : List Int) : List (Int × Int) := List.zip idx idx.tail
+
+theorem zip_drop_dropEnd {α β γ : Type} (f : α → β) (g : β → β → γ) : ∀ idx : List α,
+    (List.zip ((idx.map f).drop 1) (Py.dropEnd (idx.map f) 1)).map (fun p => g p.1 p.2)
+      = (List.zip idx idx.tail).map (fun e => g (f e.2) (f e.1))
+  | [] => by simp [Py.dropEnd]
+  | [a] => by simp [Py.dropEnd]
+  | a :: b :: t => by
+    have ih := zip_drop_dropEnd f g (b :: t)
+    simp only [Py.dropEnd, List.map_cons, List.drop_one, List.tail_cons, List.length_cons, Nat.add_sub_cancel,
+      List.take_succ_cons, List.zip_cons_cons] at ih ⊢
+    rw [ih]
+
+/-- the pairs `(xyz[idx[k+1]], xyz[idx[k]])` the source subtracts: both members are rows of members of `idx` -/
+theorem mem_zip_rows (axyz : List (List K)) (idx : List Int) (p : List K × List K)
+    (hp : p ∈ List.zip ((idx.map (RefineNf.row axyz)).drop 1) (Py.dropEnd (idx.map (RefineNf.row axyz)) 1)) :
+    (∃ i ∈ idx, p.1 = RefineNf.row axyz i) ∧ (∃ i ∈ idx, p.2 = RefineNf.row axyz i) := by
+  obtain ⟨h1, h2⟩ := List.of_mem_zip hp
+  have h1' := List.mem_of_mem_drop h1
+  have h2' : p.2 ∈ idx.map (RefineNf.row axyz) := List.mem_of_mem_take h2
+  simp only [List.mem_map] at h1' h2'
+  obtain ⟨i, hi, e1⟩ := h1'
+  obtain ⟨j, hj, e2⟩ := h2'
+  exact ⟨⟨i, hi, e1.symm⟩, ⟨j, hj, e2.symm⟩⟩
+
+/-- **`Path.length` as translated, on an ARBITRARY row list `idx`** (any length, 0 and 1 included): the sum, in order, of
+`norm (xyz[idx[k+1]] − xyz[idx[k]])` over the consecutive pairs of `idx` (all members rows of the table, all coordinate rows of one length) -/
+theorem path_length_refines (norm : List K → K) (axyz : List (List K)) (d : Nat) (idx : List Int)
+    (hv : ∀ i ∈ idx, RefineNf.Valid axyz i) (hd : ∀ i ∈ idx, (RefineNf.row axyz i).length = d) :
+    nf_path_length norm axyz idx = some (Py.Nf.sumK ((cpairs idx).map fun e => norm (RefineNf.vec axyz e.1 e.2))) := by
+  have ht := RefineNf.take_rows axyz idx hv
+  have hlen : ((idx.map (RefineNf.row axyz)).drop 1).length = (Py.dropEnd (idx.map (RefineNf.row axyz)) 1).length := by
+    simp [Py.dropEnd]
+  have hs : Py.Nf.sub2 ((idx.map (RefineNf.row axyz)).drop 1) (Py.dropEnd (idx.map (RefineNf.row axyz)) 1)
+      = some ((List.zip ((idx.map (RefineNf.row axyz)).drop 1) (Py.dropEnd (idx.map (RefineNf.row axyz)) 1)).map
+          fun p => List.zipWith (fun x y => x - y) p.1 p.2) := by
+    simp only [Py.Nf.sub2, if_pos hlen]
+    apply Py.mapOpt_total
+    intro p hp
+    obtain ⟨⟨i, hi, e1⟩, ⟨j, hj, e2⟩⟩ := mem_zip_rows axyz idx p hp
+    simp [Py.Nf.subVec, e1, e2, hd i hi, hd j hj]
+  simp only [nf_path_length, nf_path_length.body, Py.seq, Py.bind, ht, hs, Py.finish, Option.map, Py.Nf.normRows, List.map_map,
+    Function.comp_def]
+  have := zip_drop_dropEnd (RefineNf.row axyz) (fun a b => norm (List.zipWith (fun x y => x - y) a b)) idx
+  simp only [cpairs, RefineNf.vec] at this ⊢
+  rw [this]
+
+theorem bf_length_loop (norm : List K → K) (axyz : List (List K)) (g : List Int → K) :
+    ∀ (brs : List (List Int)) (v : nf_bf_length.V K), v.axyz = axyz → (∀ s ∈ brs, nf_path_length norm axyz s = some (g s)) →
+    ∃ s', Py.forEach (nf_bf_length.for1 norm) brs v = .next { v with br := s', c0_ := v.c0_ ++ brs.map g } := by
+  intro brs
+  induction brs with
+  | nil => intro v _ _; exact ⟨v.br, by simp [Py.forEach]⟩
+  | cons x xs ih =>
+    intro v hv h
+    subst hv
+    have hx := h x List.mem_cons_self
+    obtain ⟨s', hs⟩ := ih { v with br := x, c0_ := v.c0_ ++ [g x] } rfl (fun s hs => h s (List.mem_cons_of_mem _ hs))
+    refine ⟨s', ?_⟩
+    simp only [Py.forEach, nf_bf_length.for1, Py.bind, hx]
+    rw [hs]; simp
+
+theorem bf_branches_eq (fuel : Nat) (ids pids : List Int) : nf_bf_branches fuel ids pids = get_branches fuel ids pids := by
+  cases h : get_branches fuel ids pids <;> simp [nf_bf_branches, nf_bf_branches.body, Py.bind, h, Py.finish]
+
+/-- **`BranchFeatures.get_length` as translated**: when the translated `Tree.get_branches` returns `brs` (whose members are rows of the
+table), one `Path.length` per branch, in the order of `get_branches`: the sum over the consecutive pairs of the branch of
+`norm (xyz[b[k+1]] − xyz[b[k]])` -/
+theorem bf_length_refines (norm : List K → K) (fuel : Nat) (ids pids : List Int) (axyz : List (List K)) (d : Nat) (brs : List (List Int))
+    (hb : get_branches fuel ids pids = some brs)
+    (hv : ∀ b ∈ brs, ∀ i ∈ b, RefineNf.Valid axyz i ∧ (RefineNf.row axyz i).length = d) :
+    nf_bf_length norm fuel ids pids axyz
+      = some (brs.map fun b => Py.Nf.sumK ((cpairs b).map fun e => norm (RefineNf.vec axyz e.1 e.2))) := by
+  obtain ⟨s', hs⟩ := bf_length_loop norm axyz (fun b => Py.Nf.sumK ((cpairs b).map fun e => norm (RefineNf.vec axyz e.1 e.2))) brs
+    { (default : nf_bf_length.V K) with ids := ids, pids := pids, axyz := axyz, c0_ := [] } rfl
+    (fun b hb' => path_length_refines norm axyz d b (fun i hi => (hv b hb' i hi).1) (fun i hi => (hv b hb' i hi).2))
+  simp only [nf_bf_length, nf_bf_length.body, Py.seq, Py.bindS, Py.bind, bf_branches_eq, hb]
+  rw [hs]
+  simp [Py.finish]
+
 end RefineNf2
